@@ -110,7 +110,8 @@ def obs(f):
         names = vl.split()
     vs = ['%s:%s' % (k, '.'.join(v.dimensions)) for k, v in f.variables.items() if k != 'TFLAG']
     if 'TFLAG' in f.variables:
-        tf = np.asarray(f.variables['TFLAG'][:])
+        tfm = f.variables['TFLAG'][:]
+        tf = np.asarray(np.ma.filled(tfm, -1))       # a masked time flag shows as -1: never a date or a time
         if tf.shape[1] > 0 and not (tf == tf[:, :1, :]).all():
             raise lib.HarnessError('TFLAG columns differ: outside the modelled domain')
         rows = lib.show_list(['%d:%d' % (int(r[0]), int(r[1])) for r in (tf[:, 0, :] if tf.shape[1] else [])])
@@ -157,7 +158,9 @@ def coherent(f):
             bad.append('TFLAG second axis %d != %d listed variables' % (tf.shape[1], n))
         if tf.shape[0] != len(f.dimensions['TSTEP']):
             bad.append('TFLAG first axis %d != TSTEP %d' % (tf.shape[0], len(f.dimensions['TSTEP'])))
-        if tf.shape[0] > 0 and tf.shape[1] > 0:
+        if np.ma.is_masked(tf[...]):
+            bad.append('TFLAG has masked entries')
+        elif tf.shape[0] > 0 and tf.shape[1] > 0:
             if int(tf[0, 0, 0]) != int(f.SDATE) or int(tf[0, 0, 1]) != int(f.STIME):
                 bad.append('SDATE/STIME %s %s != first time flag %s' % (f.SDATE, f.STIME, np.asarray(tf[0, 0, :]).tolist()))
     std = [('TSTEP', 'LAY', 'ROW', 'COL'), ('TSTEP', 'LAY', 'PERIM')]
@@ -262,7 +265,7 @@ def resolve(recipe, f):
         o = data[r[0] % len(data)]
         return ['eval', ['NEWV', 'X' * 17, o, 'NEWV'][r[1] % 4], o, r[2] % 3 == 0]
     if k == 'mask':
-        return ['mask']
+        return ['mask', recipe[1] % 3 == 0, recipe[2] % 3]      # coords=True and other conditions in a third of the cases
     if k == 'stack':
         return ['stack', ['TSTEP', 'LAY'][r[0] % 2], r[1] % 3 == 0]
     n = 1 + r[0] % 4
@@ -290,6 +293,10 @@ def apply_op(f, op):
     if k == 'eval':
         return f.eval('%s = %s * 2' % (op[1], op[2]), inplace=op[3])
     if k == 'mask':
+        if len(op) > 1:
+            # value conditions that also hit date/time flags when coordinates are included
+            kw = [dict(greater=5), dict(values=0), dict(greater=1e6)][op[2]]
+            return f.mask(coords=bool(op[1]), **kw)
         return f.mask(greater=5)
     if k == 'stack':
         return f.stack([f.copy()] if len(op) > 2 and op[2] else f.copy(), op[1])
